@@ -29,7 +29,7 @@ PROPS = {
                    "jump/stop) are run by the real runner and by a reference interpreter written from the statement; traces (kind, node, text, tags, every "
                    "option's text/tags/Disabled, end marker), host-function and command logs and final variables must be equal. Junk arguments are passed to Next "
                    "whenever the previous element was not an option group. A second sub-check enumerates every choice sequence of each script (up to 256 paths). "
-                   "Plain lines may carry an <<if>> condition (ignored by the language: neither evaluated nor obeyed), <<stop>> may be spelled with further words, later nodes may repeat an earlier title (the first one wins). Search, not proof.",
+                   "Plain lines may carry an <<if>> condition (ignored by the language: neither evaluated nor obeyed), <<stop>> may be spelled with further words, later nodes may repeat an earlier title (the first one wins). A third of the hosts keep every element and look at all of them again at every step, a third overwrite every element after reading it. Enumerated: jump loops and command loops of up to 120 000 rounds without a line (no step budget). Search, not proof.",
         level_note="The reference interpreter (harness/model_script_test.go) and the canonical printer are the trusted base; scripts are rendered in the canonical "
                    "layout so that this check does not depend on C08. Traces are compared up to 60 elements; scripts running more than 300 statements without "
                    "yielding are discarded (the runner recurses per non-yielding statement).",
@@ -50,7 +50,7 @@ PROPS = {
                    "arbitrary doubles (NaN, infinities, -0 included), booleans, strings and logging probe calls are printed with the minimal parentheses the "
                    "precedence table requires and evaluated by the real runner; value (type and bits), error-ness and the order/count of probe calls must equal "
                    "the reference evaluator's. Exhaustive: every operator x operand-type pair x spelling; every unparenthesised chain a op1 b op2 c; unary "
-                   "operators against every binary operator; short-circuit with failing right operands. Literals include the neighbourhood of 2^31, 2^32, 2^53, 2^63, 2^64 and digit strings beyond the largest double; pairs of numbers 0-3 ulps apart (decimal sums against the decimal result, neighbouring doubles) go through every comparison; number/bool/string of a value of their own type appear anywhere; each expression is evaluated twice on one runner with probes that hand their argument back. Search, not proof.",
+                   "operators against every binary operator; short-circuit with failing right operands. Literals include the neighbourhood of 2^31, 2^32, 2^53, 2^63, 2^64 and digit strings beyond the largest double; pairs of numbers 0-3 ulps apart (decimal sums against the decimal result, neighbouring doubles) go through every comparison; number/bool/string of a value of their own type appear anywhere; each expression is evaluated twice on one runner with probes that hand their argument back. A host function may write a variable in the middle of the expression; the host registers its own number() between the two evaluations; a third of the cases run on a storer that hands out the very values it keeps. Search, not proof.",
         level_note="The reference evaluator and printer (harness/model_expr_test.go) are written from the property text and are the trusted base; values are captured "
                    "through a host function (exact bits), not through text.",
         rule="typed trees from a recursive generator; non-trivial = at least two operators from different precedence levels, or a host call in the right operand of "
@@ -108,7 +108,7 @@ PROPS = {
         level_text="Arbitrary bytes, fragment soups, token/line mutations of all repository fixtures, node-boundary and byte-offset reader "
                    "splits and arbitrary seeds are loaded; the outcome must be exactly one of (runner, error), never a panic, and must agree "
                    "with an independent lexer+parser pair carrying the harness's own error listeners; a catalogue of constructed "
-                   "valid/invalid scripts pins the expectation independently of the grammar code. Generated valid scripts also carry number literals of up to 5000 digits and lines of up to 140 KiB; invalid ones also have the last node end or an endif split by a foreign character (U+FEFF, U+200B, ...). A watchdog decides termination for inputs of at most 8 KiB and is inconclusive above. Search, not proof.",
+                   "valid/invalid scripts pins the expectation independently of the grammar code. Generated valid scripts also carry number literals of up to 5000 digits and lines of up to 140 KiB; invalid ones also have the last node end or an endif split by a foreign character (U+FEFF, U+200B, ...). A watchdog decides termination for inputs of at most 8 KiB and is inconclusive above. The independent parse must consume the whole input; pieces come through nine kinds of readers (positioned SectionReader and file, one byte per read, failing half-way ...). Search, not proof.",
         level_note="The validity oracle shares the generated ANTLR grammar with the code under test (the property is stated relative to that grammar); "
                    "the catalogue and constructed sub-checks (generated scripts in random layouts must load; the same with one edit that is invalid under any reading - a line re-indented by a tab/blank mixture, a dropped or extra endif, an unclosed if, a stray else, a dropped >>, a dropped closing brace, a dropped node end - must be refused) are the grammar-independent part; the sequence sub-check loads several inputs in one process. Running the loaded script is C06's business.",
         rule="inputs: arbitrary bytes/strings, fragment soups, random-indentation bodies, 1-3 mutations of fixtures, fixtures split at node "
@@ -131,7 +131,7 @@ PROPS = {
                    "non-boolean conditions - in every expression context (line interpolation, option text and condition, set/compound-set right-hand side, "
                    "if/elseif condition, jump expression, call and command arguments) at any nesting depth. No Next call may panic; the trace must equal the "
                    "reference interpreter's up to and including the first error; 12 further Next calls must return without panic. Exhaustive: catalogue x context x "
-                   "{top level, inside a chosen option}. A separate sub-check sweeps dice/random_range over arbitrary doubles. After the first error Next is called with hostile arguments next to a twin that passes 0: no panic and identical events; text that is not valid markup is a fault too; a third of the scripts loop, so that failed statements are visited again. Search, not proof.",
+                   "{top level, inside a chosen option}. A separate sub-check sweeps dice/random_range over arbitrary doubles. After the first error Next is called with hostile arguments next to a twin that passes 0: no panic and identical events; text that is not valid markup is a fault too; a third of the scripts loop, so that failed statements are visited again. Enumerated: a &variable.Value{} from a host function and from a host storer in 16 contexts never makes Next panic. Search, not proof.",
         level_note="Flow after the first error is not compared (the statement only promises 'usable'). Scripts are acyclic so that no continuation can recurse without "
                    "bound. For non-integral arguments of dice/random_range an error is demanded only when no integer reading (floor, ceiling, truncation) is valid.",
         rule="scripts from the flow generator with faulty statements injected (about one statement in nine); non-trivial = the run reaches a fault; "
@@ -154,7 +154,7 @@ PROPS = {
                    "that moment, is unchanged after the original went on and after restored runners were driven; (b) a receiver in a generated state (fresh, mid-run, "
                    "waiting for a choice, waiting for a never-completing command, ended) restored from S and driven with c' yields the same elements as a fresh runner "
                    "replayed to that node entry and then driven with c'; (c) a second runner restored from S is unaffected by driving the first; (d) Snapshot() "
-                   "right after RestoreAt equals S; (e) restoring a snapshot that names an unknown node fails and the runner goes on like an untouched twin. (f) a snapshot whose visit or variable map is nil restores and continues like one whose map is empty; stores are compared bit-wise (signed zeros). Search, not proof.",
+                   "right after RestoreAt equals S; (e) restoring a snapshot that names an unknown node fails and the runner goes on like an untouched twin. (f) a snapshot whose visit or variable map is nil restores and continues like one whose map is empty; stores are compared bit-wise (signed zeros). The host may register its own visited(), change the values and counts of a second snapshot through its pointers, and call a function that changes its argument in place; a refused restore changes nothing in any receiver state; start nodes may lack a title. Search, not proof.",
         level_note="Model-free apart from a pre-check that the script is fault-free; relies on the entry probe being the first statement of every node to locate 'the most "
                    "recent node entry'. nil and empty maps are identified. Scripts using random built-ins are not generated (the property excludes them).",
         rule="script x original choices x k in 0..14 x receiver state x receiver choices x continuation choices; non-trivial = snapshot taken after at least one jump "
@@ -169,7 +169,7 @@ PROPS = {
                    "block's indentation) before, between and after the statements of every body and between options; trailing comments and blanks; every spelling of "
                    "every operator and of the assignment; redundant parentheses; extra blanks inside commands and expressions. Both renderings must load, the parsed "
                    "dialogues must be deep-equal (also when all nodes are put into one reader), and the traces, host-function and command logs for two choice "
-                   "sequences must be equal. One comment line and one whitespace-only line per layout may be up to 140 000 characters long. Search, not proof.",
+                   "sequences must be equal. One comment line and one whitespace-only line per layout may be up to 140 000 characters long. Indentation may change kind from level to level, every line may have its own line end (LF, CRLF, CR), and a multi-byte character may be moved across a multiple of 512 B ... 4 MiB. Search, not proof.",
         level_note="Blanks that separate literal line text (or a trailing inline expression) from a trailing comment are part of the line's text in the parsed dialogue - "
                    "the repository's own tree snapshots pin this - so in that position the comment is attached without a blank. Extra blanks between 'jump' and its "
                    "destination are a known finding and are excluded by construction (replay/C08/jump-double-blank.json).",
@@ -188,7 +188,7 @@ PROPS = {
                    "afterwards) and the global math/rand source is consumed and re-seeded; a third run is interleaved step by step with a runner of another seed created while it is under way: traces, error texts, host-function/command logs and final variables must "
                    "be identical. The test binary re-executes itself to repeat the run in fresh processes (once cold, once after unrelated runners ran first). A "
                    "third sub-check captures every draw exactly for arbitrary seeds and bounds (n in [1,2^53), a <= b within +-2^52, n=1 and a=b included): "
-                   "integer in range, random() in [0,1), same sequence on a second runner. A fourth sub-check lets the script itself evaluate its range conditions (60 draws of random() per evaluation) thousands of times per case: about 8*10^7 draws in the quick tier and 2*10^9 in the thorough tier. Search, not proof.",
+                   "integer in range, random() in [0,1), same sequence on a second runner. A fourth sub-check lets the script itself evaluate its range conditions (60 draws of random() per evaluation) thousands of times per case: about 8*10^7 draws in the quick tier and 2*10^9 in the thorough tier. Further sub-checks: one rounding rule explains the draws for arguments that are not whole; scripts colliding in length and 32-bit checksum with one loaded before run as themselves; spans of up to 9*10^18. Search, not proof.",
         level_note="Model-free: nothing is assumed about which numbers a seed produces. The empty seed (random) is outside the property.",
         rule="script x seed from [0-9a-z]{1,16} x choices; non-trivial = at least 3 call sites of random built-ins and at least 2 distinct rendered draws; ranges: "
              "at least 3 draws with at least 2 distinct values; distinct = distinct serialised cases.",
@@ -210,7 +210,7 @@ PROPS = {
                    "the handler is provably still blocked, without handler invocation, function call or storer write; after completion was reported the next Next "
                    "resumes (bounded polling only for the goroutine shapes, whose delivery is asynchronous); an error is returned by exactly one call; the statement "
                    "after the command runs exactly once and its marker is the next element; every command statement invoked its handler exactly once with its "
-                   "arguments. The whole binary runs under -race: any report is a violation. <<wait n>>: completion no earlier than n after the starting call. In a third of the <<wait>> cases the first wait is abandoned by RestoreAt part-way and the dialogue is run again: every wait still lasts its full time. Search, not proof.",
+                   "arguments. The whole binary runs under -race: any report is a violation. <<wait n>>: completion no earlier than n after the starting call. In a third of the <<wait>> cases the first wait is abandoned by RestoreAt part-way and the dialogue is run again: every wait still lasts its full time. A refused restore while a command is pending changes nothing; an abandoned raw handler reads its own arguments when it finishes. Search, not proof.",
         level_note="The harness owns the completion schedule, not the goroutine scheduler: for the two goroutine shapes the moment at which the bridge's goroutine delivers "
                    "the result is not controlled (polling is bounded at 100000 polls of 200 microseconds). Time is only used as a lower bound (wait) or as a 10 s liveness limit in a situation "
                    "made deterministic. When a channel is already filled on return, the starting Next may either go on or report waiting once (statement silent).",
@@ -229,7 +229,7 @@ PROPS = {
         level_text="Jump-heavy generated scripts (2-5 nodes, self-loops and cycles, jumps by name and by expression out of nested option/if bodies, failing jumps "
                    "to unknown nodes, any subset of nodes with tracking: never/always) whose lines render visited_count and visited for every node and for a "
                    "non-node; at every element the rendered values and Snapshot().VisitedNodes must equal the reference interpreter's count of completed leaves "
-                   "by jump per tracked node, and no count may decrease. Hand-made snapshots (any node, any counts) are restored mid-run in half the cases; a quarter of the scripts end with nodes repeating an earlier title under the opposite tracking header. Search, not proof.",
+                   "by jump per tracked node, and no count may decrease. Hand-made snapshots (any node, any counts) are restored mid-run in half the cases; a quarter of the scripts end with nodes repeating an earlier title under the opposite tracking header. A further sub-check asks for the counts under the name the library itself reports for nodes whose title line carries blanks, tabs or wide blanks. Search, not proof.",
         level_note="Trusts the reference interpreter; absent map entries are read as 0; after a failed jump both model and runner continue with the next statement.",
         rule="scripts from the flow generator with jump-ending nodes x choice list; non-trivial = at least 3 jumps and (a count >= 2 or an untracked node left "
              "through a jump); all-paths: every choice sequence (<= 64 paths) of such a script; distinct = distinct serialised cases.",
@@ -244,7 +244,7 @@ PROPS = {
         technique="model-based PBT: fault-free scripts driven to their end (stop at any depth / node end / end after an option group), then further Next calls with arbitrary arguments checked for the end marker and for absence of side effects on a recording storer and logging handlers",
         level_text="Generated scripts biased towards <<stop>> inside nested bodies with statements remaining and towards ends right after option groups, with <<wait n>> commands that complete by themselves and a never-completing host command registered under 'stop', are driven "
                    "to the first end; 1-6 further Next calls with arbitrary arguments (0, in range, out of range, negative, huge) must each return (nil, nil) "
-                   "without panic, storer write, host-function call or command dispatch. A host function that panics is part of the scripts: whatever Next does with the panic, once it has reported the end nothing may be shown or run. Search, not proof.",
+                   "without panic, storer write, host-function call or command dispatch. A host function that panics is part of the scripts: whatever Next does with the panic, once it has reported the end nothing may be shown or run. Host errors wrapping io.EOF are errors, not the end; enumerated: a stop nested 1-24 blocks deep. Search, not proof.",
         level_note="The runner is driven until it reports the end itself (runs without an end inside the element limit are discarded, counted); the reference interpreter only classifies how the end was reached.",
         rule="acyclic scripts (forward jumps only, so every run ends) x choices x 1-6 arguments for the calls after the end; non-trivial = end by stop with "
              "statements remaining or inside a nested body, or end directly after an option group; distinct = distinct serialised cases.",
@@ -256,7 +256,7 @@ PROPS = {
         level_text="Lines are assembled from a segment grammar (text incl. multi-byte and edge whitespace, escapes, open/close/close-all/"
                    "self-closing markers with typed properties and padding, nesting/overlap, character prefix, select/plural/ordinal/nomarkup) and "
                    "the parse result is compared with a model computed from the structure: text, attribute multiset (name, rune position, length, "
-                   "typed properties), TextForAttribute. Enumerated: ordinal/plural 0..130, decimal literal forms, character names, text-bit pairs. Text bits include characters whose last UTF-8 byte is 0x85 or 0xA0 and wide blanks; every marker kind is enumerated after 0-3 characters of text. Search, not proof.",
+                   "typed properties), TextForAttribute. Enumerated: ordinal/plural 0..130, decimal literal forms, character names, text-bit pairs. Text bits include characters whose last UTF-8 byte is 0x85 or 0xA0 and wide blanks; every marker kind is enumerated after 0-3 characters of text. Further: trimwhitespace on replacement markers, bare words equal to true/false only under Unicode case folding, an unclosed marker named character next to a Name: prefix. Search, not proof.",
         level_note="Constellations on which the documentation is silent are not generated (a whitespace-swallowing marker directly after another marker "
                    "or escape, re-opening a name that is still open, raw ']' in text, a colon outside a leading 'Name: ' prefix decides nothing about the "
                    "character attribute). Decimal properties are compared with 1e-12 relative tolerance.",
@@ -274,7 +274,7 @@ PROPS = {
         technique="PBT over call histories with a differential oracle (reused parser vs fresh parser; same line after different dialogue prefixes)",
         level_text="For generated histories of well-formed, truncated and garbage lines parsed on one LineParser, the result for a probe line "
                    "(text, attributes, positions, source positions, error-ness) must deep-equal the result on a fresh parser, also when parsed twice; "
-                   "at runner level the Line of the probe after a prefix of other lines (including lines whose markup fails) must equal the Line of the probe alone. Exhaustive pairs over 13 atoms; histories of 20-90 lines in which the probe has been parsed before. Every result handed out must still equal a deep copy taken at once after each later parse; in half the cases the caller overwrites everything reachable in earlier results before the probe is parsed; through the runner the lines are also shown as the options of one group. Search, not proof.",
+                   "at runner level the Line of the probe after a prefix of other lines (including lines whose markup fails) must equal the Line of the probe alone. Exhaustive pairs over 13 atoms; histories of 20-90 lines in which the probe has been parsed before. Every result handed out must still equal a deep copy taken at once after each later parse; in half the cases the caller overwrites everything reachable in earlier results before the probe is parsed; through the runner the lines are also shown as the options of one group. The probe is also parsed on a copy of the used parser value; long histories carry kilobytes of replacement text and lines with hundreds of markers. Search, not proof.",
         level_note="Model-free differential check: it trusts nothing but reflect.DeepEqual. Lines that panic are C15's business and are discarded here.",
         rule="history of 0-6 lines (well-formed from the C13 grammar, truncated, or fragment soup) x probe line; non-trivial = the history contains a "
              "marker-bearing line and the probe yields at least one attribute; distinct = distinct (history, probe) pairs.",
@@ -311,7 +311,7 @@ PROPS = {
                    "arguments of mostly fitting, sometimes wrong, count and type. Registration must never panic; non-functions, nil, unbridgeable parameter or result "
                    "kinds and too many results must be refused; predeclared signatures with legal result shapes must be accepted; an accepted function is either "
                    "refused at call time (count/type mismatch, without running) or runs exactly once with arguments equal to Go's conversion to the declared type, and "
-                   "its value or error reaches the script; after a refused registration the name is simply unknown (an error, never a panic); the bridge never panics. Exhaustive: all parameter lists of length <= 2 over the pool. Channel result types outside the pool (chan of a concrete error type, send-only, named) must never panic or hang; in a quarter of the synchronous cases the host function registers functions and commands on the calling runner while it runs; every Next runs under a 20 s watchdog. Search, not proof.",
+                   "its value or error reaches the script; after a refused registration the name is simply unknown (an error, never a panic); the bridge never panics. Exhaustive: all parameter lists of length <= 2 over the pool. Channel result types outside the pool (chan of a concrete error type, send-only, named) must never panic or hang; in a quarter of the synchronous cases the host function registers functions and commands on the calling runner while it runs; every Next runs under a 20 s watchdog. Registration under built-in names, an earlier handler surviving a refused registration, one conversion rule for fractional numbers, result types with a String method, function-local types that print alike. Search, not proof.",
         level_note="Where the statement does not decide (uint kinds, interface{} parameters, a command returning a plain value) registration may go either way, but 'accepted "
                    "implies callable' still applies. A fractional number sent to an integer parameter may arrive as either neighbouring integer. Typed nil function "
                    "values and error-implementing pointer result types are not generated (outside the stated type pool).",
@@ -332,7 +332,7 @@ PROPS = {
                    "1e5, 0x10, 0x1p4, +5, 1_0, -, --x, keywords as words), {expressions} of each type, and 0-2 extra blanks at every position, are run with a logging "
                    "handler under the name and decoy handlers under stop/if/set/jump/call/... . The handler must be invoked exactly once with exactly the typed values "
                    "in order and the dialogue must continue after the command; <<stop ...>> ends the dialogue without any dispatch; an unregistered name is an "
-                   "error without any dispatch. Exhaustive: every pooled word as only/first/last argument of every pooled name. Decimal words include k*2^e + d up to 2^128 with a point anywhere; the handler may replace an earlier raw or converted registration of the same name. Search, not proof.",
+                   "error without any dispatch. Exhaustive: every pooled word as only/first/last argument of every pooled name. Decimal words include k*2^e + d up to 2^128 with a point anywhere; the handler may replace an earlier raw or converted registration of the same name. Handlers keep the slices they were given: they still read the same after later commands. Search, not proof.",
         level_note="Trusts the classifier (classifyCommandWord: true/false, ^-?digits(.digits)?$ numbers, everything else a string). Not generated because the statement is "
                    "silent: '5.' and '.5', tabs as separators, words containing '>' or '{', expressions glued to words. Names starting with else/endif/endenum are a "
                    "known finding and excluded by construction (replay/C17/name-starting-with-*.json).",
@@ -352,7 +352,7 @@ PROPS = {
                    "byte for byte as first reader; some programs repeated) are handed to a child process started from the -race test binary: 1-3 rounds in which one goroutine per program creates its "
                    "runner and drives it, all released together while the ANTLR DFA caches are still cold in the first round; afterwards each program is run alone in the "
                    "same process. Traces, error texts, logs and final variables must be identical, and any race detector report or 'fatal error' (concurrent map access) "
-                   "in the child is a violation. Each child process starts with a cold-start storm: 12 goroutines create and drive a runner for one script that uses every markup processor, built-in and registration kind, all released together; a quarter of the programs carry text after their last node, and a program that is refused must be refused alone and concurrently alike. Search, not proof.",
+                   "in the child is a violation. Each child process starts with a cold-start storm: 12 goroutines create and drive a runner for one script that uses every markup processor, built-in and registration kind, all released together; a quarter of the programs carry text after their last node, and a program that is refused must be refused alone and concurrently alike. More runners than processors meet inside a converted command; every host writes into the property maps of the elements it receives. Search, not proof.",
         level_note="The goroutine scheduler is not owned by the harness: the race detector reports unsynchronised conflicting accesses that executed, whatever their order, "
                    "which is the realistic failure mode (package-level shared state); a race on a path that no generated program executes concurrently stays invisible.",
         rule="set of programs x rounds; non-trivial = at least two distinct programs with overlapping lifetimes; distinct = distinct serialised cases.",
@@ -365,7 +365,7 @@ PROPS = {
                    "sign/exponent/mantissa and known awkward decimals, supplied through the storer and captured exactly by a host function: the stated inequalities for "
                    "floor, ceil, inc, dec, integer, decimal (integer+decimal = x exactly), round (|r-x| <= 0.5 exactly), round_places (|r-x| <= 0.5*10^-n + 4 ulp(x), "
                    "n in 0..8), number(string(x)) == x, bool(string(b)) == b, identity of string/number/bool on their own type, and errors for strings that are neither "
-                   "numbers nor booleans. Sweep: every k, k+0.5, k+-ulp for |k| <= 2000 (thorough 100000) and every power of two with neighbours. Search, not proof.",
+                   "numbers nor booleans. Sweep: every k, k+0.5, k+-ulp for |k| <= 2000 (thorough 100000) and every power of two with neighbours. Every numeric built-in is first called with a string on the same runner; calls nested among the arguments give the same result. Search, not proof.",
         level_note="round_places is given a stated tolerance of 4 ulp(x) on top of half a unit (multiplying by 10^n rounds; measured worst case 1 ulp). Non-convertible strings "
                    "avoid spellings strconv accepts (inf, nan, hex, exponents, 1/t/T/0/f/F).",
         rule="x from ten constructions x n in 0..8 x b x a non-convertible string; non-trivial = x is not an integer; distinct = distinct (x bits, n, b, s).",
@@ -379,7 +379,7 @@ PROPS = {
         technique="model-based stateful PBT (slice model) + exhaustive small-scope enumeration; invariant over generated token streams; native fuzzing",
         level_text="Generated and exhaustively enumerated operation histories against a slice model (every enqueue/dequeue word up to "
                    "length 16 quick / 22 thorough, every head offset at the first three growths, every growth up to 8192 elements from four head offsets, batches the caller overwrites after PushAll), and the INDENT/DEDENT/EOF invariant "
-                   "over generated, mutated and fuzzed inputs. Search, not proof: no counterexample among the cases counted in evidence.",
+                   "over generated, mutated and fuzzed inputs. Also: the emptied queue used again, queues of 5- and 10-word elements, 5-300 indentation levels open at once, two lexers asked for tokens in turn. Search, not proof: no counterexample among the cases counted in evidence.",
         level_note="Trusts the slice model, the ANTLR runtime's CommonTokenStream and the verif-tag re-exports (no logic). Empty-container "
                    "Dequeue/Peek/Pop (documented panics) are outside the domain.",
         rule="queue/stack: generated operation bursts (rapid) and exhaustive enqueue/dequeue words decided against a slice model, "
